@@ -297,6 +297,9 @@ class OverrideMeta:
             for i, op in enumerate(ops):
                 if op not in ("setcfg fo=1", "setcfg dis=1"): continue
                 flag = op.split(" ")[1].split("=")[0]
+                # the episode must SWITCH THE OVERRIDE ON: skip histories in which the flag was mentioned before
+                # (initial flags in the header, earlier setcfg / mid-call reconfigurations)
+                if any((flag + "=") in x or (flag + ":") in x for x in [header] + ops[:i]): break
                 j = i + 1
                 while j < len(ops) and ops[j].startswith("exec ") and " mid=" not in ops[j]: j += 1
                 if j == i + 1 or j >= len(ops) - 1 or ops[j] != "setcfg %s=0" % flag: break
